@@ -164,11 +164,9 @@ def build_probe():
         f.write(PROBE_MAIN)
     shutil.copy2(os.path.join(env.REPO, "Cargo.lock"), os.path.join(d, "Cargo.lock"))
     target = os.environ.get("CARGO_TARGET_DIR") or os.path.join(env.REPO, "target")
-    e = dict(os.environ, CARGO_NET_OFFLINE="true", CARGO_TARGET_DIR=target)
-    real_home = getattr(env, "_REAL_HOME", os.path.expanduser("~"))
-    e.setdefault("RUSTUP_HOME", os.path.join(real_home, ".rustup"))
-    e.setdefault("CARGO_HOME", os.path.join(real_home, ".cargo"))
-    r = subprocess.run(["cargo", "build", "--offline", "-q"], cwd=d, env=e, capture_output=True, text=True)
+    cargo, e = env.cargo_cmd_env()
+    e["CARGO_TARGET_DIR"] = target
+    r = subprocess.run([cargo, "build", "--offline", "-q"], cwd=d, env=e, capture_output=True, text=True)
     if r.returncode != 0:
         raise env.InfraError("cargo build of the C47 probe failed:\n%s" % r.stderr[-3000:])
     exe = os.path.join(d, "c47probe.bin")
